@@ -97,7 +97,7 @@ def inc_case(draw, tier="quick"):
     cfg = draw(st.sampled_from(INC))
     d = 2 if cfg.endswith("2") else 3
     return {"d": d, "cfg": cfg, "on": draw(st.booleans()), "base": [draw(C.hpoint(d, 9)) for _ in range(4)],
-            "coef": [draw(st.integers(-3, 3)) for _ in range(3)], "m": draw(Z.params(9)), "mclass": draw(st.sampled_from(Z.MCLASSES)), "scale": draw(C.scale())}
+            "coef": [draw(st.integers(-3, 3)) for _ in range(3)], "m": draw(Z.params(9)), "mclass": draw(st.sampled_from(Z.MCLASSES)), "scale": draw(C.scale()), "covform": draw(st.sampled_from([False, False, True]))}
 
 
 def run_inc(c):
@@ -148,6 +148,12 @@ def run_inc(c):
     t = Transformation(tmat(c))
     ck = Checker()
     site = f"incidence:{cfg}:{'on' if truth else 'off'}"
+    if c.get("covform") and d == 3 and cfg not in ("point_line2", "point_plane"):
+        # the line of 3-space in its covariant form (the public covariant_tensor): the same line, moved by the same rule
+        # (as the argument of Plane.contains; a covariant line does not accept points in its own contains)
+        if isinstance(P, Line):
+            P = P.covariant_tensor
+            site += ":line-in-covariant-form"
     before, f = call(site, S.contains, P)
     if f:
         return [f]
@@ -494,8 +500,8 @@ LAWS = [
         + (["short-argument:axes3"] if c.get("short") is not None and len(c["grid"]) == 2 else []), {"quick": 700, "thorough": 15000},
         "collections with one to three collection axes under one map or a collection of maps: t*op(args) = op(t*args) = single results position by position", shard=200,
         mandatory=("t-collection:axes3", "short-argument:axes3")),
-    Law("incidence", lambda tier: inc_case(tier), run_inc, nontrivial, lambda c: [c["cfg"], "on" if c["on"] else "off"], {"quick": 1200, "thorough": 30000},
-        "contains before = contains after = exact truth value", shard=400),
+    Law("incidence", lambda tier: inc_case(tier), run_inc, nontrivial, lambda c: [c["cfg"], "on" if c["on"] else "off"] + (["line-in-covariant-form"] if c.get("covform") and c["d"] == 3 and c["cfg"] not in ("point_line2", "point_plane", "point_line3") else []), {"quick": 1200, "thorough": 30000},
+        "contains before = contains after = exact truth value", shard=400, mandatory=("line-in-covariant-form",)),
     Law("quadric", lambda tier: quad_case(tier), run_quad, nontrivial, lambda c: [f"d{c['d']}", c["cls"]] + (["queried-before-transformed"] if c.get("used") else []) + (["complex"] if c.get("cplx") else []), {"quick": 800, "thorough": 20000},
         "point on/off quadric, tangent hyperplane, is_tangent before and after", shard=300),
     Law("crossratio", lambda tier: cr_case(tier), run_cr, nontrivial, lambda c: [c["form"], f"d{c['d']}"] + (["pencil-of-parallel-lines"] if c["d"] == 3 and c["form"] == "lines" and c.get("vinf") else []), {"quick": 1000, "thorough": 20000},
